@@ -1,0 +1,18 @@
+//go:build verif
+
+// Contracts for stacking background tasks (property C15). Comment-only file.
+//
+// Giving a buffer that already has a background task another one wraps the
+// buffer itself, not what is underneath it: the consumer of the result then
+// still waits for the earlier task (through the wrapped buffer's own methods)
+// as well as for the new one.
+package buffer
+
+//@ func newCASBufferWithBackgroundTask
+//@   requires base != nil && dgValid(digest.value) && source.dataIntegrityCallback != nil
+//@   ensures [wraps-the-buffer-it-was-given] result != nil && typeis(result, "*buffer.casBufferWithBackgroundTask")
+//@         && as(result, "*buffer.casBufferWithBackgroundTask").base == base && tinv(result)
+//@ func (*casBufferWithBackgroundTask).WithTask
+//@   requires bgWF(b)
+//@   ensures [earlier-task-still-waited-for] result != nil && typeis(result, "*buffer.casBufferWithBackgroundTask")
+//@         && as(as(result, "*buffer.casBufferWithBackgroundTask").base, "*buffer.casBufferWithBackgroundTask") == b
